@@ -100,7 +100,7 @@ func convertCatalogModelToKeyValuePair(model any, encoding EncodingFormat) (*hyd
 		// Check if the current field is tagged as the `value` field (via `hydraide:"value"`)
 		// This field holds the actual value of the Treasure.
 		// We detect its type using reflection and populate the corresponding proto field in KeyValuePair.
-		if key, ok := field.Tag.Lookup(tagHydrAIDE); ok && strings.Contains(key, tagValue) {
+		if key, ok := field.Tag.Lookup(tagHydrAIDE); ok && tagNames(key, tagValue) {
 
 			value := v.Field(i)
 			isEmpty := isFieldEmpty(value)
@@ -129,7 +129,7 @@ func convertCatalogModelToKeyValuePair(model any, encoding EncodingFormat) (*hyd
 		// - If omitempty is set, zero values are skipped without error
 		// - Otherwise must be non-zero
 		// - Automatically converted to a `timestamppb.Timestamp` for protobuf
-		if key, ok := field.Tag.Lookup(tagHydrAIDE); ok && strings.Contains(key, tagExpireAt) {
+		if key, ok := field.Tag.Lookup(tagHydrAIDE); ok && tagNames(key, tagExpireAt) {
 
 			value := v.Field(i)
 			hasOmitempty := strings.Contains(key, tagOmitempty)
@@ -161,7 +161,7 @@ func convertCatalogModelToKeyValuePair(model any, encoding EncodingFormat) (*hyd
 		// Optional metadata indicating who or what created the Treasure.
 		// - Must be of type `string`
 		// - Empty values are ignored
-		if key, ok := field.Tag.Lookup(tagHydrAIDE); ok && strings.Contains(key, tagCreatedBy) {
+		if key, ok := field.Tag.Lookup(tagHydrAIDE); ok && tagNames(key, tagCreatedBy) {
 
 			value := v.Field(i)
 
@@ -188,7 +188,7 @@ func convertCatalogModelToKeyValuePair(model any, encoding EncodingFormat) (*hyd
 		// - If omitempty is set, zero values are skipped without error
 		// - Otherwise must be non-zero
 		// - Converted to protobuf-compatible timestamp
-		if key, ok := field.Tag.Lookup(tagHydrAIDE); ok && strings.Contains(key, tagCreatedAt) {
+		if key, ok := field.Tag.Lookup(tagHydrAIDE); ok && tagNames(key, tagCreatedAt) {
 
 			value := v.Field(i)
 			hasOmitempty := strings.Contains(key, tagOmitempty)
@@ -219,7 +219,7 @@ func convertCatalogModelToKeyValuePair(model any, encoding EncodingFormat) (*hyd
 		// - Must be of type `string`
 		// - If omitempty is set, empty values are skipped
 		// - Otherwise empty values are still allowed but not set
-		if key, ok := field.Tag.Lookup(tagHydrAIDE); ok && strings.Contains(key, tagUpdatedBy) {
+		if key, ok := field.Tag.Lookup(tagHydrAIDE); ok && tagNames(key, tagUpdatedBy) {
 
 			value := v.Field(i)
 			hasOmitempty := strings.Contains(key, tagOmitempty)
@@ -247,7 +247,7 @@ func convertCatalogModelToKeyValuePair(model any, encoding EncodingFormat) (*hyd
 		// - If omitempty is set, zero values are skipped without error
 		// - Otherwise must be non-zero
 		// - Automatically converted to a `timestamppb.Timestamp` for protobuf transmission
-		if key, ok := field.Tag.Lookup(tagHydrAIDE); ok && strings.Contains(key, tagUpdatedAt) {
+		if key, ok := field.Tag.Lookup(tagHydrAIDE); ok && tagNames(key, tagUpdatedAt) {
 
 			value := v.Field(i)
 			hasOmitempty := strings.Contains(key, tagOmitempty)
@@ -333,12 +333,12 @@ func convertProtoTreasureToCatalogModel(treasure *hydraidepbgo.Treasure, model a
 
 	for i := 0; i < t.NumField(); i++ {
 
-		if key, ok := t.Field(i).Tag.Lookup(tagHydrAIDE); ok && strings.Contains(key, tagKey) {
+		if key, ok := t.Field(i).Tag.Lookup(tagHydrAIDE); ok && tagNames(key, tagKey) {
 			v.Elem().Field(i).SetString(treasure.GetKey())
 			continue
 		}
 
-		if key, ok := t.Field(i).Tag.Lookup(tagHydrAIDE); ok && strings.Contains(key, tagValue) {
+		if key, ok := t.Field(i).Tag.Lookup(tagHydrAIDE); ok && tagNames(key, tagValue) {
 
 			field := v.Elem().Field(i)
 
@@ -351,35 +351,35 @@ func convertProtoTreasureToCatalogModel(treasure *hydraidepbgo.Treasure, model a
 
 		}
 
-		if key, ok := t.Field(i).Tag.Lookup(tagHydrAIDE); ok && strings.Contains(key, tagExpireAt) {
+		if key, ok := t.Field(i).Tag.Lookup(tagHydrAIDE); ok && tagNames(key, tagExpireAt) {
 			if treasure.ExpiredAt != nil {
 				v.Elem().Field(i).Set(reflect.ValueOf(treasure.ExpiredAt.AsTime()))
 			}
 			continue
 		}
 
-		if key, ok := t.Field(i).Tag.Lookup(tagHydrAIDE); ok && strings.Contains(key, tagCreatedBy) {
+		if key, ok := t.Field(i).Tag.Lookup(tagHydrAIDE); ok && tagNames(key, tagCreatedBy) {
 			if treasure.CreatedBy != nil {
 				v.Elem().Field(i).SetString(*treasure.CreatedBy)
 			}
 			continue
 		}
 
-		if key, ok := t.Field(i).Tag.Lookup(tagHydrAIDE); ok && strings.Contains(key, tagCreatedAt) {
+		if key, ok := t.Field(i).Tag.Lookup(tagHydrAIDE); ok && tagNames(key, tagCreatedAt) {
 			if treasure.CreatedAt != nil {
 				v.Elem().Field(i).Set(reflect.ValueOf(treasure.CreatedAt.AsTime()))
 			}
 			continue
 		}
 
-		if key, ok := t.Field(i).Tag.Lookup(tagHydrAIDE); ok && strings.Contains(key, tagUpdatedBy) {
+		if key, ok := t.Field(i).Tag.Lookup(tagHydrAIDE); ok && tagNames(key, tagUpdatedBy) {
 			if treasure.UpdatedBy != nil {
 				v.Elem().Field(i).SetString(*treasure.UpdatedBy)
 			}
 			continue
 		}
 
-		if key, ok := t.Field(i).Tag.Lookup(tagHydrAIDE); ok && strings.Contains(key, tagUpdatedAt) {
+		if key, ok := t.Field(i).Tag.Lookup(tagHydrAIDE); ok && tagNames(key, tagUpdatedAt) {
 			if treasure.UpdatedAt != nil {
 				v.Elem().Field(i).Set(reflect.ValueOf(treasure.UpdatedAt.AsTime()))
 			}
@@ -390,4 +390,12 @@ func convertProtoTreasureToCatalogModel(treasure *hydraidepbgo.Treasure, model a
 
 	return nil
 
+}
+
+// tagNames reports whether a `hydraide` tag names the given reserved slot. The name of a tag is the
+// part before the first comma; options such as omitempty follow it. Matching the whole name (not a
+// substring) keeps body fields like "keywords" or "values" from being taken for the key or the value.
+func tagNames(tag, name string) bool {
+	head, _, _ := strings.Cut(tag, ",")
+	return strings.TrimSpace(head) == name
 }
